@@ -144,6 +144,11 @@ def evaluate(ctx, cases):
             ctx.count("to:" + ("ok" if "ok" in o else o["err"]))
             if impl != m["str"]:
                 ctx.mismatch("rel.to", {"text": text, "base": base_s}, impl, m["str"])
+            if c["kind"] == "negbase" and c["offset"] != 0 and c["origin"] <= len(c["base"]):
+                # the library's negative index tokens: an offset that leaves the final index negative is refused
+                kept = c["base"][:len(c["base"]) - c["origin"]]
+                if kept and kept[-1].lstrip("-").isdigit() and int(kept[-1]) + c["offset"] < 0 and not ("err" in impl and impl["err"].startswith("RelativeJSONPointer")):
+                    ctx.violation("an offset that makes the index negative must be refused with a relative-pointer error", {"text": text, "base": base_s}, impl, {"err": "RelativeJSONPointerIndexError"})
             if "err" in o and o.get("family") not in ("relpointer", "pointer"):
                 ctx.violation("applying a relative pointer may only fail with a pointer error", {"text": text, "base": base_s}, o["err"], "pointer error family")
             if ctx.rng.random() < (0.08 if ctx.tier == "quick" else 0.4):
